@@ -27,7 +27,7 @@ LEVEL_NOTE = ("battery pool stubbed at _data_pipeline.new_battery_pool (bounds c
 RULE = ("random histories of 3-40 events over 1-2 component groups, 1-3 regular and 1-2 operating-point actors with "
         "distinct priorities; plus the two documented operating-point tables as fixed cases. distinct = canonical "
         "history JSON; non-trivial = >=1 request observed after both resolvers hold a target")
-REQUIRED_BUCKETS = ["proposal-with-a-NaN-bound", "regular-and-operating-point-actor-with-the-same-priority", "manager-created-by-the-power-wrapper", "proposals-issued-in-one-loop-iteration", "two-actors-with-the-same-priority", "manager-of:pv", "manager-of:ev",
+REQUIRED_BUCKETS = ["factory-tier(pools from microgrid.new_*_pool)", "factory:ev_charger", "factory:pv", "factory:operating-point-pool", "proposal-with-a-NaN-bound", "regular-and-operating-point-actor-with-the-same-priority", "manager-created-by-the-power-wrapper", "proposals-issued-in-one-loop-iteration", "two-actors-with-the-same-priority", "manager-of:pv", "manager-of:ev",
                     "bounds-only-step-with-request", "only-one-target-changed", "both-targets-nonzero",
                     "expiry", "partial-failure-resend", "late-partial-failure-resend", "bounds-None", "doc-table", "request-on-bound"]
 REQUIRED_COUNTERS = ["requests_checked", "reported_targets_compared", "reports_checked", "expired_kind_checks"]
@@ -60,6 +60,8 @@ def budget(tier: str) -> dict[str, Any]:
 def gen(rng: Any, tier: str, i: int) -> Any:
     if i < len(DOC_CASES):
         return DOC_CASES[i]
+    if rng.random() < 0.03:
+        return _gen_factory(rng)
     ng = rng.choice([1, 1, 2])
     actors = []
     prios = rng.sample(range(1, 12), 5)
@@ -333,7 +335,111 @@ async def _drive(case: dict[str, Any], out: dict[str, Any]) -> None:
         setattr(_data_pipeline, attr, saved)
 
 
+def _gen_factory(rng: Any) -> dict[str, Any]:
+    """Pools obtained the way actors obtain them: microgrid.new_battery_pool / new_ev_charger_pool / new_pv_pool."""
+    pools = []
+    for _ in range(rng.randint(2, 5)):
+        kind = rng.choice(["battery", "ev_charger", "pv"])
+        all_ids = {"battery": [21, 22], "ev_charger": [41, 42], "pv": [31, 32]}[kind]
+        pools.append({"kind": kind, "priority": rng.choice([-3, 0, 1, 7]), "name": rng.choice([None, "actor"]),
+                      "op": rng.random() < 0.5, "ids": rng.choice([None, all_ids, all_ids[:1]]),
+                      "watts": rng.choice([None, 0.0, 100.0, 2500.0]) if kind != "pv" else rng.choice([None, 0.0, -100.0])})
+    return {"kind": "factory", "pools": pools}
+
+
+async def _drive_factory(case: dict[str, Any], out: dict[str, Any]) -> None:
+    from datetime import timedelta
+
+    from frequenz.client.microgrid import (Component, ComponentCategory, Connection,
+                                           InverterType)
+    from frequenz.quantities import Power
+
+    import frequenz.sdk.microgrid  # noqa: F401
+    from frequenz.sdk.microgrid import _data_pipeline
+    from frequenz.sdk.microgrid._power_wrapper import PowerWrapper
+    from frequenz.sdk.timeseries._resampling import ResamplerConfig
+
+    from .. import fakes
+
+    C = ComponentCategory
+    comps = [Component(1, C.GRID), Component(2, C.METER), Component(101, C.INVERTER, InverterType.BATTERY),
+             Component(102, C.INVERTER, InverterType.BATTERY), Component(21, C.BATTERY), Component(22, C.BATTERY),
+             Component(31, C.INVERTER, InverterType.SOLAR), Component(32, C.INVERTER, InverterType.SOLAR),
+             Component(41, C.EV_CHARGER), Component(42, C.EV_CHARGER)]
+    conns = [Connection(1, 2), Connection(2, 101), Connection(2, 102), Connection(101, 21), Connection(102, 22),
+             Connection(2, 31), Connection(2, 32), Connection(2, 41), Connection(2, 42)]
+    fakes.install_connection_manager(comps, conns)
+    dp = _data_pipeline._DataPipeline(ResamplerConfig(resampling_period=timedelta(seconds=1)))  # noqa: SLF001
+    saved = _data_pipeline._DATA_PIPELINE  # noqa: SLF001
+    _data_pipeline._DATA_PIPELINE = dp  # noqa: SLF001
+    try:
+        wrappers = [v for v in vars(dp).values() if isinstance(v, PowerWrapper)]
+        rxs = [w.proposal_channel.new_receiver(limit=100) for w in wrappers]
+        sub_rxs = [w.bounds_subscription_channel.new_receiver(limit=100) for w in wrappers]
+        for spec in case["pools"]:
+            factory = getattr(_data_pipeline, f"new_{spec['kind']}_pool")
+            pool = factory(priority=spec["priority"], component_ids=None if spec["ids"] is None else set(spec["ids"]),
+                           name=spec["name"], set_operating_point=spec["op"])
+            await asyncio.sleep(0.01)
+            for rx in rxs + sub_rxs:
+                while rx._q:  # noqa: SLF001  (what the wrappers' own bounds trackers sent while starting up)
+                    rx.consume()
+            await pool.propose_power(None if spec["watts"] is None else Power.from_watts(spec["watts"]))
+            got = []
+            for rx in rxs:
+                while rx._q:  # noqa: SLF001
+                    got.append(rx.consume())
+            _ = pool.power_status.new_receiver()  # subscribes to the reports: a ReportRequest on the wrapper's channel
+            await asyncio.sleep(0.01)
+            subs = []
+            for rx in sub_rxs:
+                while rx._q:  # noqa: SLF001
+                    subs.append(rx.consume())
+            out["pools"].append({"spec": spec, "proposals": [
+                {"priority": p.priority, "op": p.set_operating_point, "ids": sorted(p.component_ids),
+                 "watts": None if p.preferred_power is None else p.preferred_power.as_watts(), "source": p.source_id} for p in got],
+                "report_requests": [{"priority": r.priority, "op": r.set_operating_point, "ids": sorted(r.component_ids)}
+                                    for r in subs if r.priority == spec["priority"]]})
+    finally:
+        _data_pipeline._DATA_PIPELINE = saved  # noqa: SLF001
+        await dp._stop()  # noqa: SLF001
+
+
+def _check_factory(case: dict[str, Any], rec: Any) -> None:
+    out: dict[str, Any] = {"pools": []}
+    run_virtual(lambda: _drive_factory(case, out), monitor=LoopMonitor())
+    rec.bucket("factory-tier(pools from microgrid.new_*_pool)")
+    all_ids = {"battery": [21, 22], "ev_charger": [41, 42], "pv": [31, 32]}
+    for ob in out["pools"]:
+        spec = ob["spec"]
+        rec.bucket("factory:" + spec["kind"])
+        if spec["op"]:
+            rec.bucket("factory:operating-point-pool")
+        rec.count("pool_proposals_observed", len(ob["proposals"]))
+        want = {"priority": spec["priority"], "op": spec["op"], "ids": sorted(spec["ids"] or all_ids[spec["kind"]]),
+                "watts": spec["watts"]}
+        w = {"asked_for": spec, "expected_proposal": want, "observed": ob}
+        if len(ob["proposals"]) != 1:
+            rec.violation("pool-from-the-factory-did-not-send-exactly-one-proposal", w)
+            continue
+        got = {k: ob["proposals"][0][k] for k in want}
+        if got != want:
+            # the kind of an actor (regular / operating point), its priority and its component group decide how its
+            # proposal enters the sum that is distributed
+            rec.violation("proposal-of-a-factory-pool-differs-from-what-the-pool-was-created-for", w)
+            continue
+        for r in ob["report_requests"]:
+            if r["op"] != spec["op"] or r["ids"] != want["ids"]:
+                rec.violation("report-subscription-of-a-factory-pool-differs-from-what-the-pool-was-created-for", w)
+                break
+    rec.nontrivial(len(out["pools"]) >= 2)
+    rec.observed({"pools": out["pools"][:3]})
+
+
 def check(case: dict[str, Any], rec: Any) -> None:
+    if case.get("kind") == "factory":
+        _check_factory(case, rec)
+        return
     out: dict[str, Any] = {"steps": []}
     mon = LoopMonitor()
     run_virtual(lambda: _drive(case, out), monitor=mon)
